@@ -260,15 +260,15 @@ func (s *sim) quiesce(want table) error {
 	// Names that are plain identifiers are served from the per-node name index, anything
 	// else by a scan with a pattern: query the two groups separately so that the index is
 	// really what answers the first query.
+	// Names no channel carries any more (renamed away, deleted) are asked for in a query of
+	// their own, which must return nothing: mixed into the first query, a stale index
+	// entry under the old name would return the very key the new name should return.
 	nameSet := map[string]bool{}
 	for _, m := range want {
 		nameSet[m.Name] = true
 	}
-	for _, n := range s.gone {
-		nameSet[n] = true
-	}
 	delete(nameSet, "")
-	var groups [2][]string
+	var groups [3][]string
 	for n := range nameSet {
 		if validName.MatchString(n) {
 			groups[0] = append(groups[0], n)
@@ -276,7 +276,13 @@ func (s *sim) quiesce(want table) error {
 			groups[1] = append(groups[1], n)
 		}
 	}
-	var wantBy [2]map[channel.Key]bool
+	for _, n := range s.gone {
+		if n != "" && !nameSet[n] && validName.MatchString(n) {
+			nameSet[n] = true
+			groups[2] = append(groups[2], n)
+		}
+	}
+	var wantBy [3]map[channel.Key]bool
 	for g := range groups {
 		sort.Strings(groups[g])
 		wantBy[g] = map[channel.Key]bool{}
@@ -319,7 +325,7 @@ func (s *sim) quiesce(want table) error {
 				for k := range got {
 					if !wantBy[g][k] {
 						why = fmt.Sprintf("node %d: by-name retrieval (group %d) returns unexpected key %d", i, g, k)
-						if g == 0 && s.lhNode(k) == i {
+						if g != 1 && s.lhNode(k) == i {
 							staleNode, staleMsg = i, fmt.Sprintf("retrieval by the names %v through node %d returns key %d, which does not carry any of these names in the metadata table of the same node", groups[g], i, k)
 						}
 					}
